@@ -456,7 +456,7 @@ def typed_local(e):
 class C03(Prop):
     id = "C03"
     title = "Compiled bytecode computes exactly what LPC semantics define"
-    lean_modules = ["NV.C03.Props", "NV.C03.Witness"]
+    lean_modules = ["NV.C03.Props", "NV.C03.Props2", "NV.C03.Witness"]
     theorems = []          # filled below
     witness_theorems = []
     consts = [("oldRangeBehavior", "NV_OLD_RANGE"), ("switchCaseSize", "SWITCH_CASE_SIZE")]
@@ -1097,5 +1097,12 @@ class C03(Prop):
 
 
 PROP = C03()
-PROP.theorems = [
-]
+PROP.theorems = ["NV.C03." + t for t in (
+    "unop_agrees", "binop_agrees", "truthy_agrees", "assignop_eq_binop", "assignop_agrees_partial", "assignop_agrees_repaired",
+    "incdec_agrees", "index_agrees", "rindex_agrees", "lvget_agrees", "fold_sound", "fold_sound_spec", "fold_un_sound",
+    "rewrite_eq_zero_sound", "rewrite_add_zero_sound", "rewrite_not_cond_sound", "rewrite_ne_zero_sound", "literal_roundtrip",
+    "while_dec_agrees", "loop_cond_num_agrees", "loop_cond_local_agrees", "switch_direct_agrees",
+    "wrap_id", "wrap_range", "tdiv_range", "tmod_range", "idiv_eq", "imod_eq")]
+PROP.witness_theorems = ["NV.C03." + t for t in (
+    "witness_num_opeq_real", "witness_addeq_num_str", "assignop_agrees_Full_false", "witness_buf_store_zero",
+    "witness_eq_zero_real", "witness_optimistic_rewrite", "witness_pp_if_32", "witness_rev_range_wrap")]
